@@ -44,13 +44,15 @@ def geom(ctx, R="R-C02-geom"):
         name = sc.cfg_name(style, kaldi)
         n += 1
         guard, rows, cols, node = g["empty"]
-        T = sc.lt_threshold(guard)
-        if T is None:
-            raise AnalysisError("%s: empty-return guard is not of the form N < T: %s" % (R, S.show(guard)))
-        sc.same(ctx, R, f, node, "[%s] emptiness threshold" % name, T, spec.GEOM["empty_below"])
         fg, frows, fcols, fnode = g["full"]
         nf = spec.GEOM["num_frames"]
-        sc.same(ctx, R, f, fnode, "[%s] rows of the result" % name, frows, nf)
+        short = S.cmp("<", sc.N, spec.GEOM["empty_below"])
+        rows_want = S.cond(short, S.ZERO, nf)
+        T = sc.lt_threshold(guard)
+        if T is not None:
+            sc.same(ctx, R, f, node, "[%s] emptiness threshold" % name, T, spec.GEOM["empty_below"])
+        # whichever way the cases are split: rows(N) = 0 below the threshold, (N + S//2)//S from it on
+        sc.same(ctx, R, f, fnode, "[%s] rows of the result, as a function of N over both returns" % name, S.cond(guard, S.ZERO, frows), rows_want)
         res = S.compare(cols, fcols, domain={})
         ctx.check(res["verdict"] == "equal", "R-C02-columns", f, node, "[%s] empty and full results have the same number of columns" % name,
                   "the empty result has %s columns but the full one %s" % (S.show(cols), S.show(fcols)))
@@ -58,7 +60,7 @@ def geom(ctx, R="R-C02-geom"):
         res = S.compare(fcols, want_cols, domain={})
         ctx.check(res["verdict"] == "equal", "R-C02-columns", f, fnode, "[%s] the result has num_filts + int(include_energy) columns" % name,
                   "the result has %s columns" % S.show(fcols))
-        sc.same(ctx, R, f, g["loop_node"], "[%s] number of frames computed" % name, g["loop_count"], nf)
+        sc.same(ctx, R, f, g["loop_node"], "[%s] number of frames computed" % name, S.cond(guard, S.ZERO, g["loop_count"]), rows_want)
         k = g["loop_var"]
         sc.same(ctx, R, f, g["frame_node"], "[%s] frame k starts at k*S of the padded signal" % name, g["frame_lo"], S.mul(k, sc.Sh),
                 domain=dict(sc.DOM, **{k.args[0]: sc.DOM["N"]}))
@@ -72,8 +74,11 @@ def geom(ctx, R="R-C02-geom"):
                   "padding mode is %s" % S.show(g["pad"]["mode"]))
         ctx.check(g["pad"]["src"] == S.sym(f.params[1]), R, f, g["frame_node"], "[%s] the signal itself is padded" % name,
                   "np.pad is applied to %s" % S.show(g["pad"]["src"])[:80])
-        sc.same(ctx, R, f, g["frame_node"], "[%s] left padding" % name, g["pad"]["left"], pl_want)
-        sc.same(ctx, R, f, g["frame_node"], "[%s] right padding" % name, g["pad"]["right"], pr_want)
+        # paddings matter on the path that computes at least one frame
+        act = S.eand(S.enot(guard), S.cmp(">", g["loop_count"], S.ZERO))
+        act_want = S.eand(S.enot(short), S.cmp(">", nf, S.ZERO))
+        sc.same(ctx, R, f, g["frame_node"], "[%s] left padding (when a frame is computed)" % name, S.cond(act, g["pad"]["left"], S.ZERO), S.cond(act_want, pl_want, S.ZERO))
+        sc.same(ctx, R, f, g["frame_node"], "[%s] right padding (when a frame is computed)" % name, S.cond(act, g["pad"]["right"], S.ZERO), S.cond(act_want, pr_want, S.ZERO))
     ctx.floor(R, n, 3)
 
 
